@@ -110,7 +110,7 @@ theorem SStr.step_spec (s : SStr) (f : File Char) (op : Op Char) (h : SRel s f) 
   cases op with
   | write cs =>
     simp only [okS, decide_eq_true_eq] at hok
-    have hw := SStr.write_spec s f.data cs hc (by rw [ht, hok])
+    have hw := SStr.write_spec s f.data cs hc (by rw [ht, hok]) hch
     simp only [SStr.step, Spec.step]
     rw [File.write_end f cs hok]
     refine ⟨trivial, hw.1, ?_, by rw [hw.2.2]; exact hch⟩
@@ -168,6 +168,9 @@ theorem SStr.step_spec (s : SStr) (f : File Char) (op : Op Char) (h : SRel s f) 
     show Coh s.len.2 f.data
     unfold Coh; rw [hr.2.2.1]; exact hr.2.1
   | next => exact SRel.next s f ⟨hc, ht, hch⟩
+  | rollover =>
+    have hr := SStr.rollover_spec s f.data hc hch
+    exact ⟨rfl, hr.1, by simp only [SStr.step, Spec.step]; rw [hr.2.1, ht], by simp only [SStr.step]; rw [hr.2.2]; exact hch⟩
   | list =>
     have hl := SStr.len_spec s f.data hc hch
     have hrel : SRel s.len.2 f := ⟨by unfold Coh; rw [hl.2.2.1]; exact hl.2.1, by rw [hl.2.2.1, ht],
